@@ -176,3 +176,20 @@ def call_wsgi(wapp, env, abort_after=None):
     except TypeError:
         o.out = None
     return o
+
+
+def published_schema_docs(app):
+    """The XML Schema documents Spyne publishes for app, serialised to bytes (one per namespace)."""
+    from lxml import etree
+    from spyne.interface.xml_schema import XmlSchema
+    xs = XmlSchema(app.interface)
+    xs.build_interface_document()
+    docs = xs.get_interface_document()
+    return [etree.tostring(d) for d in docs.values()]
+
+
+def published_wsdl(app, url='http://localhost/'):
+    from spyne.interface.wsdl import Wsdl11
+    w = Wsdl11(app.interface)
+    w.build_interface_document(url)
+    return w.get_interface_document()
